@@ -49,6 +49,17 @@ func (x *fnExec) bindResults(st *State, call *ssa.Call, res []Term) {
 func (x *fnExec) doCall(st *State, site ssa.Instruction, call *ssa.CallCommon, mode string) ([]Term, bool) {
 	v := x.v
 	if b, ok := call.Value.(*ssa.Builtin); ok {
+		bname := x.calleeName(call)
+		for _, ac := range x.c.AtCall {
+			if ac.Target == bname && mode != "go" {
+				actx := x.ctx(st)
+				for ai, a := range call.Args {
+					actx.vars[fmt.Sprintf("$arg%d", ai)] = x.val(st, a)
+				}
+				g := x.evalClause(st, actx, ac)
+				x.emit(st, fmt.Sprintf("atcall.%s.%s#%d", bname, ac.Label, x.siteOrd[site]), "atcall", ac.Label, ac.Props, g, "before "+bname+": "+ac.Src)
+			}
+		}
 		return x.doBuiltin(st, site, b, call)
 	}
 	sig := call.Signature()
@@ -338,7 +349,20 @@ func (x *fnExec) applyModifies(st *State, c *FuncContract, mods []string, pre *E
 	locs := map[string][]string{}
 	var order []string
 	for _, m := range mods {
+		if strings.TrimSpace(m) == "fresh" {
+			// everything may change, but only at objects allocated by the callee
+			snap := st.snapshot()
+			wasUnknown := st.unknownHavoc
+			x.havocAll(st)
+			st.unknownHavoc = wasUnknown
+			st.freshEpochs[st.epoch] = &freshEpoch{snap: snap, oldAlloc: oldAlloc}
+		}
+	}
+	for _, m := range mods {
 		m = strings.TrimSpace(m)
+		if m == "fresh" {
+			continue
+		}
 		if m == "*" {
 			x.havocAll(st)
 			return
